@@ -78,15 +78,59 @@ def _pdesy_frame(tb):
     return hit
 
 
+class CaseTimeout(BaseException):
+    """Raised by the per-case watchdog (a case normally takes milliseconds)."""
+
+
+CASE_TIMEOUT = float(os.environ.get("VERIF_CASE_TIMEOUT", "90"))
+
+
+def _alarm(signum, frame):
+    raise CaseTimeout()
+
+
 def evaluate(mod, case):
-    """Run mod.check(case) -> Result. pDESy crashes become violations, harness crashes HarnessError."""
+    """Run mod.check(case) -> Result. pDESy crashes become violations, harness crashes HarnessError.
+
+    A case that does not return within CASE_TIMEOUT seconds (three orders of magnitude above the normal
+    cost) is reported as a hang of the code under test: simulate() and friends must always return.
+    """
+    import signal
+
     from . import spec as S
 
     S.reset_defaults()
+    use_alarm = hasattr(signal, "setitimer") and CASE_TIMEOUT > 0
+    old_handler = None
+    if use_alarm:
+        try:
+            old_handler = signal.signal(signal.SIGALRM, _alarm)
+            signal.setitimer(signal.ITIMER_REAL, CASE_TIMEOUT)
+        except ValueError:  # not in the main thread
+            use_alarm = False
+    try:
+        res = _evaluate(mod, case, S)
+    finally:
+        if use_alarm:
+            signal.setitimer(signal.ITIMER_REAL, 0)
+            signal.signal(signal.SIGALRM, old_handler)
+    if S.defaults_polluted():
+        res.stats["defaults_polluted"] += 1
+        S.reset_defaults()
+    return res
+
+
+def _evaluate(mod, case, S):
     try:
         res = mod.check(case)
         if res is None:
             res = Result()
+    except CaseTimeout:
+        res = Result()
+        res.fail(
+            mod.PID + ".hang",
+            "the case did not return within %.0f s (normal cost: milliseconds): endless loop in the code under test" % CASE_TIMEOUT,
+        )
     except Violation as v:
         res = Result()
         res.violations.append(v)
@@ -110,9 +154,6 @@ def evaluate(mod, case):
             raise HarnessError(
                 "oracle/harness crashed: %s\n%s" % (e, traceback.format_exc())
             )
-    if S.defaults_polluted():
-        res.stats["defaults_polluted"] += 1
-        S.reset_defaults()
     return res
 
 
@@ -197,6 +238,8 @@ def run_shard(args):
                     elif b not in st["pending"]:
                         st["pending"][b] = (v, case)
                 if hit is not None:
+                    if hit.clause.endswith(".hang"):
+                        st["after"] = shrink_budget + 1  # every shrink attempt would cost a full time-out
                     st["best"], st["best_hash"], st["best_v"] = case, case_hash(case), hit
                     raise AssertionError(hit.bucket)
 
